@@ -440,6 +440,81 @@ func c13Run() func(cfg int, hist []int) *mc.SeqOut {
 	}
 }
 
+// ---- schedules: the partition workers of one scan overlap ----
+//
+// The scanner runs one goroutine per partition; they share the request's receiver.  Every schedule of
+// the workers of a List / Count / streamed range over two partitions (qualifying keys on both sides of
+// the border) must give the unpartitioned snapshot.
+
+func c13SchedScenario(read string) *mc.Scenario {
+	return &mc.Scenario{Name: "C13/sched/two-partitions/" + read, Body: func(x *mc.X) {
+		out := &mc.SeqOut{}
+		scanner.VerifSetRangeStreamBatch(2)
+		w := &c13World{world: newWorldCompat(hx.Mem, 16, true), m: newMvcc(), x: out}
+		defer w.close()
+		for _, o := range []seqOp{{0, rCreate, "v1"}, {1, rCreate, "v1"}, {2, rCreate, "v1"}, {0, rUpdOK, "v2"}, {2, rUpdOK, "v2"}} {
+			if !w.applyOp(out, w.m, "C13", c13Keys[o.key], o) {
+				panic("initial history failed")
+			}
+		}
+		// one border on the index record of the second key: /r/a on the left, /r/a/b and /r/b on the right
+		w.setPartitions([][]byte{hx.Coder.EncodeRevisionKey([]byte(c13Keys[1]))}, nil)
+		rev := w.b.GetCurrentRevision()
+		want, _ := w.m.list("/r/", "/r0", rev, 0)
+		var kvs []*proto.KeyValue
+		var cnt int = -1
+		var rerr string
+		nterm := 1
+		vrt.BeginExplore()
+		t := vrt.Go(func() {
+			switch read {
+			case "list":
+				l, err := w.b.List(bg, &proto.RangeRequest{Key: []byte("/r/"), End: []byte("/r0"), Revision: rev})
+				if err != nil {
+					rerr = err.Error()
+				} else {
+					kvs = l.Kvs
+				}
+			case "count":
+				c, err := w.b.Count(bg, &proto.CountRequest{Key: []byte("/r/"), End: []byte("/r0")})
+				if err != nil {
+					rerr = err.Error()
+				} else {
+					cnt = int(c.Count)
+				}
+			default:
+				so := w.streamRaw(hx.Coder.EncodeObjectKey([]byte("/r/"), 0), hx.Coder.EncodeObjectKey([]byte("/r0"), 0), rev)
+				kvs, rerr, nterm = sortKvs(so.kvs), so.err, so.nterm
+				if so.badHeader != "" {
+					x.Fail("C13|stream-batch-revision|concurrent-workers", "%s", so.badHeader)
+				}
+				if so.afterTerm {
+					x.Fail("C13|stream-data-after-terminator|concurrent-workers", "data after the terminator")
+				}
+			}
+		})
+		vrt.Join(t)
+		vrt.Quiesce()
+		vrt.EndExplore()
+		switch {
+		case rerr != "":
+			x.Fail("C13|read-error|concurrent-workers|"+read, "%s over two partitions failed: %s", read, rerr)
+		case nterm != 1:
+			x.Fail("C13|stream-terminators|concurrent-workers", "the stream ended with %d terminators", nterm)
+		case read == "count":
+			if cnt != len(want) {
+				x.Fail("C13|partitioned-count|concurrent-workers", "Count over two partitions answered %d, the snapshot holds %s", cnt, mkvString(want))
+			}
+		case !sameKvs(kvs, want):
+			x.Fail("C13|partitioned-"+read+"|concurrent-workers", "%s over two partitions (border on the index record of %s) returned %s, the unpartitioned snapshot is %s", read, c13Keys[1], kvsString(kvs), mkvString(want))
+		}
+		w.kv.Partitions = nil
+		x.Viols = append(x.Viols, out.Viols...)
+		x.Obs = fmt.Sprintf("%s keys=%d count=%d", read, len(kvs), cnt)
+		w.clean = true
+	}}
+}
+
 func isIdentity(p []int) bool {
 	for i, v := range p {
 		if i != v {
@@ -454,12 +529,25 @@ func init() {
 	mc.Register(&mc.Property{
 		ID:     "C13",
 		Level:  "model_checking",
-		Rule:   "explicit-state BFS over write histories on 3 keys (multi-version, tombstoned, re-created); in every state every subset of up to 2 (thorough 3) partition borders drawn from all stored internal keys and well-formed internal keys (stored and absent raw keys x revisions 0,1,existing,absent,max), with the partitions reported in every order, is installed under the real scanner; at every read revision an unlimited List, Count, a whole-interval stream and the concatenation of streams over the advertised partitions are compared with the unpartitioned snapshot (versioned-map model); stream batch size shrunk to 2; every data batch must carry the read revision and every stream exactly one terminator, last",
-		Assume: []string{"partition layout injected at the storage.KvStorage seam over memkv (thorough: real region splits of the tikv mock cluster)", "single client, default schedule"},
+		Rule:   "explicit-state BFS over write histories on 3 keys (multi-version, tombstoned, re-created); in every state every subset of up to 2 (thorough 3) partition borders drawn from all stored internal keys and well-formed internal keys (stored and absent raw keys x revisions 0,1,existing,absent,max), with the partitions reported in every order, is installed under the real scanner; at every read revision an unlimited List, Count, a whole-interval stream and the concatenation of streams over the advertised partitions are compared with the unpartitioned snapshot (versioned-map model); stream batch size shrunk to 2; every data batch must carry the read revision and every stream exactly one terminator, last; plus every schedule (preemption-bounded) of the partition workers of one streamed range / List / Count over two partitions with keys on both sides of the border",
+		Assume: []string{"partition layout injected at the storage.KvStorage seam over memkv (thorough: real region splits of the tikv mock cluster)", "the history search uses a single client and the default schedule; overlapping partition workers are covered by the schedule scenarios"},
 		Exec: func(j *mc.Job) *mc.JobResult {
 			return mc.SeqExec(j, c13Run())
 		},
+		Scenarios: func(tier string) []*mc.Scenario {
+			return []*mc.Scenario{c13SchedScenario("stream"), c13SchedScenario("list"), c13SchedScenario("count")}
+		},
 		Drive: func(c *mc.Ctx) {
+			full0 := c.Deadline
+			c.Deadline = c.Start.Add(full0.Sub(c.Start) / 4)
+			mc.DriveSchedules(c, func(i int, sc *mc.Scenario) mc.SchedPlan {
+				p := mc.SchedPlan{Class: "overlapping-partition-workers", Bounds: []int{0, 1}, Shard: true}
+				if c.Tier == "thorough" {
+					p.Bounds = []int{0, 1, 2}
+				}
+				return p
+			})
+			c.Deadline = full0
 			depth := 3
 			mc.SeqFullDepth = 1 // every state costs thousands of partitionings; its oracle reads, it does not write
 			mc.SeqOpsPerJob = 1 // one (expensive) execution per worker job
